@@ -36,7 +36,25 @@ UNIVS = [
     ["e:1", "e:2", "s:x", "p:1", "i:1001", "t:1,2", "d:3", "w:4"],
     ["p:1", "p:2", "w:1", "e:1", "s:y"],
     ["e:1", "e:1", "e:2", "s:q", "i:1002"],
+    # falsy data: "", 0, (), an object with __bool__ False, an empty container-like object (__len__ 0)
+    ["s:", "z:1", "l:1", "s:x", "t:", "e:1"],
+    ["i:0", "l:2", "z:2", "s:y", "t:", "p:1"],
 ]
+FALSY = ["s:", "i:0", "t:", "z:1", "l:1"]
+
+
+def falsy_descs():
+    """every falsy data value as plain data and as a clone, with and without explicit data_id, in Tree and TypedTree,
+    callback and derived-class mappers (and the built-in default mapper for "")"""
+    for spec in FALSY:
+        for typed in (False, True):
+            for ms in ["cb", "derived"] + (["none"] if spec == "s:" else []):
+                for did in (None, "fid"):
+                    k = (lambda x: x) if typed else (lambda x: None)
+                    nodes = [[0, k("a"), did, []], [1, k("a"), None, [[0, k("a"), did, []], [2, k("b"), None, []]]]]
+                    yield dict(typed=typed, univ=[spec, "s:x", "e:7"] if ms != "none" else [spec, "s:x", "s:w"], nodes=nodes,
+                               calc=None, km="true", vm="true", mapper=ms, meta=None)
+
 KINDS = ["a", "b", "c", "child"]
 KMS = ["true", "false", "custom"]
 VMS = ["true", "false", "custom", "custom_nokind"]
@@ -111,6 +129,9 @@ class Prop:
             yield dict(kind="raw", doc=v, typed=False, mapper="none")
         for v, typed, mapper in FOREIGN:
             yield dict(kind="raw", doc=v, typed=typed, mapper=mapper)
+        for fd in falsy_descs():
+            yield dict(fd, kind="save")
+            yield dict(fd, kind="load", shuffle=False)
         for td in self.tree_descs(tier, rng):
             only_str = all(u.startswith("s:") for u in td["univ"])
             for _ in range(2):
@@ -196,7 +217,11 @@ class Prop:
         except Exception as e:  # noqa: BLE001
             hashes, _names = S.failed_load_facts(lambda: cls.load(io.StringIO(text), **lkw))
             return None, [1, S.err_class(e)], hashes, meta
-        forest, hashes = S.obs_loaded_tree(t2)
+        try:
+            dn = json.loads(text)["nodes"]
+        except Exception:  # noqa: BLE001
+            dn = None
+        forest, hashes = S.obs_loaded_tree(t2, dn if isinstance(dn, list) else None)
         return t2, [0, [S.jv_sx(meta), forest]], hashes, meta
 
     def run_load(self, desc, tree, U):
